@@ -29,6 +29,24 @@ func genWalFault(g *gen, n int, tier string, w *bufio.Writer) {
 	for c := 0; c < n; c++ {
 		fmt.Fprintf(w, "# case %d\n", c)
 		fmt.Fprintln(w, "new")
+		if c%12 == 7 {
+			// an intact older file, then a newest file of > 6 x 32 KB whose FIRST record gets damaged: the reader gives up
+			// on that file ("too many corrupted entries at start") and must still deliver the older file
+			for i := 0; i < 3; i++ {
+				fmt.Fprintln(w, join("append", "1", hx(g.engKey()), hx(g.bytesN(5+g.intn(30)))))
+			}
+			fmt.Fprintln(w, "rotate")
+			for i := 0; i < 8; i++ {
+				fmt.Fprintln(w, join("append", "1", hx(g.engKey()), hx(g.bytesN(29000+g.intn(3000)))))
+			}
+			fmt.Fprintln(w, "seal")
+			fmt.Fprintln(w, "truncall 19997")
+			fmt.Fprintf(w, "flipall %d 23003\n", g.pick(1, 0xff))
+			fmt.Fprintf(w, "engflip %d 255\n", 7+g.intn(20))
+			fmt.Fprintf(w, "engflip %d 1\n", g.intn(7))
+			fmt.Fprintln(w, "engcutrec 0")
+			continue
+		}
 		frag := c%6 == 5 // contains a fragmented entry (> 32 KB): sampled offsets only
 		steps := 2 + g.intn(7)
 		for s := 0; s < steps; s++ {
@@ -72,6 +90,9 @@ func genWalFault(g *gen, n int, tier string, w *bufio.Writer) {
 		fmt.Fprintf(w, "flipall %d %d\n", g.pick(1, 0x80, 0xff, 0x04), fstride)
 		for i := 0; i < 4; i++ {
 			fmt.Fprintf(w, "engtrunc %d\n", g.intn(4000))
+		}
+		for i := 0; i < 3; i++ { // cuts exactly at the end of a physical record (inside a fragmented entry when there is one)
+			fmt.Fprintf(w, "engcutrec %d\n", g.intn(64))
 		}
 		fmt.Fprintf(w, "engflip %d %d\n", g.intn(4000), g.pick(1, 0xff))
 	}
@@ -197,6 +218,35 @@ func (x *walFaultRun) step(ws []string) (out string) {
 			off %= len(b) + 1
 		} else {
 			off = 0
+		}
+		return fmt.Sprintf("eng %d %s", off, x.engineOn(b[:off]))
+	case "engcutrec":
+		b := x.files[len(x.files)-1]
+		var ends []int
+		for off := 0; off+7 <= len(b); {
+			l := int(b[off+4]) | int(b[off+5])<<8
+			if off+7+l > len(b) {
+				break
+			}
+			off += 7 + l
+			ends = append(ends, off)
+		}
+		// prefer boundaries that are not entry boundaries (record type FIRST=2 / MIDDLE=3 just ended)
+		var inner []int
+		pos := 0
+		for _, e := range ends {
+			if t := b[pos+6]; t == 2 || t == 3 {
+				inner = append(inner, e)
+			}
+			pos = e
+		}
+		if len(inner) > 0 {
+			ends = inner
+		}
+		i, _ := strconv.Atoi(ws[1])
+		off := 0
+		if len(ends) > 0 {
+			off = ends[i%len(ends)]
 		}
 		return fmt.Sprintf("eng %d %s", off, x.engineOn(b[:off]))
 	case "engflip":
